@@ -42,7 +42,7 @@ MANIFEST = {
     'technique': 'Rocq/Coq proof over a Gallina model (field/lra for the area equation and the area bound, induction over the '
                  'searches) + extraction-based correspondence + exhaustive exact-rational minimality oracle + directed generation',
 }
-BUDGET = {'quick': 75, 'thorough': 1500}
+BUDGET = {'quick': 62, 'thorough': 1500}
 MISMATCH_BUDGET = 0.0
 ESCALATE_BUDGET = 150     # s, thorough-size correspondence after an edit of the transcribed source
 SEARCH_BUDGET = 150
@@ -898,8 +898,7 @@ def process(ctx, c, rng, n_find):
         return res, ok
     mres = parse_run(ctx.model([model_run_line(c)])[0])
     same = compare_run(ctx, c, res, mres, ok, D)
-    if ares is not None and same and D <= 120 and (c['kind'] in ('onestep', 'corpus') or min(res_ramps(res, R)) == 1
-                                                   or rng.random() < 0.3):
+    if ares is not None and same and ((D <= 120 and min(res_ramps(res, R)) == 1) or (D <= 60 and rng.random() < 0.15)):
         # tie-broken triples can differ at equal cost; the sample comparison is meaningful when the corner forms agree
         if mres.get('cls') == 'OK' and abs(mres['amp'] - Fr(res['wave'][1])) <= Fr(1, 10 ** 9) * max(1, abs(mres['amp'])) \
                 and mres['up'] == res_ramps(res, R)[0]:
